@@ -186,6 +186,11 @@ func (v4proto) BuildReply(reqWire []byte, kind replyKind, serial uint32, altXid 
 	if err != nil {
 		panic(err)
 	}
+	// the peer fills in whom it answers itself (it does not rely on the library's reply builder for that)
+	rep.OpCode = dhcpv4.OpcodeBootReply
+	rep.TransactionID = req.TransactionID
+	rep.HWType = req.HWType
+	rep.ClientHWAddr = append(net.HardwareAddr(nil), clientHW...)
 	switch kind {
 	case rkOtherID:
 		rep.TransactionID = xid4(altXid)
